@@ -25,7 +25,7 @@ func verifC19Marker(name string) string {
 	return string(bs)
 }
 
-//verif:harness id=C19 tier=quick,thorough witness=end,rejected bounds="request and response validation with a reason-only message function: a header / query / path parameter, a text/plain request body and a text/plain response body whose value is a marker of 2-3 symbolic bytes, against a string schema failing by maxLength 1, pattern ^[a-c]+$, enum [x,y], or type integer; MultiError symbolic; every error text returned (Error() of the RequestError / ResponseError / MultiError and of everything it wraps) is free of the marker"
+//verif:harness id=C19 tier=quick,thorough witness=end,rejected bounds="request and response validation with a reason-only message function: a header / query / path parameter, a text/plain request body, a text/plain response body and a response header whose value is a marker of 2-3 symbolic bytes, against a string schema failing by maxLength 1, pattern ^[a-c]+$, enum [x,y], or type integer; MultiError symbolic; every error text returned (Error() of the RequestError / ResponseError / MultiError and of everything it wraps) is free of the marker"
 func verifH_C19_filter() {
 	marker := verifC19Marker("v")
 	one := uint64(1)
@@ -51,7 +51,7 @@ func verifH_C19_filter() {
 	input := &RequestValidationInput{Request: req, Route: &routers.Route{Spec: &openapi3.T{}, PathItem: &openapi3.PathItem{Post: op}, Operation: op, Method: "POST"},
 		Options: opts, QueryParams: url.Values{}, PathParams: map[string]string{}}
 	var err error
-	where := verifChoose("where", 5)
+	where := verifChoose("where", 6)
 	if where == 3 && schema.Type.Is("integer") {
 		return // a text/plain body is a string: the integer schema applies to parameters only
 	}
@@ -79,6 +79,13 @@ func verifH_C19_filter() {
 		}
 		err = ValidateResponse(context.Background(), &ResponseValidationInput{RequestValidationInput: input, Status: 200,
 			Header: http.Header{"Content-Type": []string{"text/plain"}}, Body: io.NopCloser(strings.NewReader(marker)), Options: opts})
+	case 5:
+		if schema.Type.Is("integer") {
+			return
+		}
+		resps.Set("200", &openapi3.ResponseRef{Value: &openapi3.Response{Description: &d, Headers: openapi3.Headers{"X-R": &openapi3.HeaderRef{Value: &openapi3.Header{Parameter: openapi3.Parameter{Schema: ref}}}}}})
+		err = ValidateResponse(context.Background(), &ResponseValidationInput{RequestValidationInput: input, Status: 200,
+			Header: http.Header{"X-R": []string{marker}}, Options: opts})
 	}
 	verifAssert(err != nil, "C19 filter: the marker value is rejected by the schema")
 	if err == nil {
